@@ -508,3 +508,95 @@ func TestVerifC19TeardownProbe(t *testing.T) {
 		assumptions: []string{"sequentially consistent execution at statement granularity"},
 		gen:         genC19TeardownProbe, run: func(c streamsCase, r *runCtx) { judgeC14Sim(c, runStreams(c, r), r) }})
 }
+
+// ---------- C09 (schedule part): request / response where a callback closes the stream on the answer ----------
+// The writer's Flush may still be on its way (the peer can answer as soon as the element is in the queue) when the callback
+// goroutine of the same end closes the stream: whatever the interleaving, no buffer may be recycled twice (D24) or be left behind.
+
+func genC09Sim(t *rapid.T) streamsCase {
+	c := streamsCase{Cfg: defaultSimCfg}
+	c.Cfg.QueueCap = 64
+	var st sStream
+	n := rapid.SampledFrom([]int{1, 10, 65, 130}).Draw(t, "req")
+	m := rapid.SampledFrom([]int{1, 10, 65}).Draw(t, "resp")
+	fb := rapid.IntRange(0, 5).Draw(t, "fb") == 0
+	if rapid.IntRange(0, 2).Draw(t, "dir") != 0 {
+		// the client asks, the server (synchronous or callback mode) answers, the client's callback closes on the answer
+		st.C.Prog = []sOp{{K: "flush", N: n, FB: fb}}
+		st.C.CB = []cbPolicy{{Take: rapid.SampledFrom([]int{0, 0, 1}).Draw(t, "take"), Close: true}}
+		if rapid.Bool().Draw(t, "scb") {
+			st.S.CB = []cbPolicy{{Take: 0}}
+			st.S.AckAt = rapid.IntRange(1, n).Draw(t, "ack_at")
+			st.S.Prog2 = []sOp{{K: "quiet"}, {K: "close"}}
+		} else {
+			st.S.Prog = []sOp{{K: "readn", N: n}, {K: "flush", N: m}, {K: "quiet"}, {K: "close"}}
+		}
+	} else {
+		// the client opens with one byte, the server asks, the client answers, the server's callback closes on the answer
+		st.C.Prog = []sOp{{K: "flush", N: 1}, {K: "readn", N: n}, {K: "flush", N: m}, {K: "quiet"}, {K: "close"}}
+		st.S.CB = []cbPolicy{{Take: 0}, {Take: rapid.SampledFrom([]int{0, 0, 1}).Draw(t, "take"), Close: true}}
+		st.S.Prog = []sOp{{K: "flush", N: n, FB: fb}}
+	}
+	c.Streams = []sStream{st}
+	if rapid.Bool().Draw(t, "busy") {
+		// a second stream keeps the peer's queue consumer busy: then the request is seen without the wake-up that Flush sends last,
+		// i.e. the answer (and the Close it triggers) can arrive while that Flush is still between the queue and its own clean-up
+		var b sStream
+		k := rapid.IntRange(1, 3).Draw(t, "busy_msgs")
+		for j := 0; j < k; j++ {
+			b.C.Prog = append(b.C.Prog, sOp{K: "flush", N: rapid.SampledFrom([]int{1, 10, 65}).Draw(t, "bn")})
+		}
+		b.C.Prog = append(b.C.Prog, sOp{K: "close"})
+		b.S.Prog = []sOp{{K: "readall"}, {K: "close"}}
+		c.Streams = append(c.Streams, b)
+	}
+	c.Sched = genSchedPlanHot(t, 8, 1500, 3, 150)
+	return c
+}
+
+func judgeC09Sim(c streamsCase, h *streamsHist, r *runCtx) {
+	if h.viol != "" {
+		r.Violf("%s\nlast scheduling points: %v", h.viol, h.sc.Tail(30))
+		return
+	}
+	var free, caps []int
+	over := false
+	for _, l := range h.w.client.bufferManager.lists {
+		free = append(free, int(*l.size))
+		caps = append(caps, int(*l.cap))
+		if uint32(*l.size) > *l.cap {
+			over = true
+		}
+	}
+	if over {
+		r.Violf("free slots per size class %v exceed the capacities %v: a buffer was recycled twice\n%s\nlast scheduling points: %v", free, caps, h.worldState(), h.sc.Tail(30))
+		return
+	}
+	closedBoth := true
+	for i := range h.ends {
+		for e := 0; e < 2; e++ {
+			eh := h.ends[i][e]
+			if eh.stream == nil || !eh.closeCalled || !eh.progDone[0] || !eh.progDone[1] || eh.stream.getStreamState() != uint32(streamClosed) {
+				closedBoth = false
+			}
+		}
+	}
+	if closedBoth {
+		r.Label("both-ends-closed")
+		if !h.w.allFree() {
+			r.Violf("both ends closed the stream and nothing is in flight, but the free slots per size class are %v, the capacities %v\n%s\nlast scheduling points: %v", free, caps, h.worldState(), h.sc.Tail(30))
+			return
+		}
+	}
+	if h.obs.preemptions > 0 && closedBoth {
+		r.NonTrivial()
+	}
+}
+
+func TestVerifC09Sim(t *testing.T) {
+	runCheck(t, checkDef[streamsCase]{name: "TestVerifC09Sim", replayTries: 5,
+		rule: "one stream, request/response in either direction (shared memory or socket fallback), the asking end in callback mode closing the stream inside OnData on the answer while its own Flush of the request may not have returned, the answering end synchronous or in callback mode; generated schedule (PCT depth<=3 over hot points, preemption lists, random walk); " +
+			"oracle at quiescence: the free count of no size class exceeds its capacity, and equals it once both ends are closed; non-trivial = both ends closed and at least one pre-emptive switch; distinct by case hash",
+		assumptions: []string{"sequentially consistent execution at statement granularity", "epoll loop and socket replaced by event-loop virtual threads and an in-memory byte pipe"},
+		gen:         genC09Sim, run: func(c streamsCase, r *runCtx) { judgeC09Sim(c, runStreams(c, r), r) }})
+}
